@@ -196,6 +196,8 @@ def step (st : St) (ws : List String) : St × String :=
   | _ => (st, "bad-op")
 
 def dispatch (sub : String) (i o : IO.FS.Stream) : Option (IO Unit) :=
-  if sub == "c06" then some (Driver.loop i o step St.empty) else none
+  -- `c06-ip`: the same event language; the resolutions were triggered through the IPv4 layer
+  -- (`Ipv4::open_for_sending` / `Udp::open_and_listen`), which must behave as `Arp::resolve`
+  if sub == "c06" || sub == "c06-ip" then some (Driver.loop i o step St.empty) else none
 
 end Driver.C06
